@@ -17,10 +17,13 @@ LM2 == << DT(41, 1), D(42, <<421>>), DT(43, 2), DT(44, 1) >>
 
 Mk(conn, ledger, tab, star, targets, where, lo, hi, lit, wp, pp) ==
     [conn |-> conn, ledger |-> ledger, tab |-> tab, star |-> star, targets |-> targets, where |-> where,
-     lo |-> lo, hi |-> hi, lit |-> lit, wpause |-> wp, ppause |-> pp, ty |-> 0, parse |-> 0, sub |-> <<>>]
+     lo |-> lo, hi |-> hi, lit |-> lit, wpause |-> wp, ppause |-> pp, ty |-> 0, parse |-> 0, sub |-> <<>>,
+     via |-> "cursor", fetch |-> <<>>]
 Ty(j, ty) == [j EXCEPT !.ty = ty]                  \* tab "x": the directive type of the typed table
 Text(j, n) == [j EXCEPT !.parse = n]               \* submitted as text, n places inside the parser where it can be descheduled
 Sub(j, s) == [j EXCEPT !.sub = s]                  \* FROM (SELECT col s[1] AS n<s[1]>, ... FROM tab)
+(* handed to the connection through `via', the results delivered in the steps f (thread descheduled before each) *)
+Dl(j, via, f) == [j EXCEPT !.via = via, !.fetch = f]
 col(i) == At("col", i)
 aFlo == At("flo", 0)
 aFhi == At("fhi", 0)
@@ -80,8 +83,21 @@ JobsOperands ==
 JobsSubcols ==
     { Sub(Mk(1, LA2, "p", FALSE, <<aCp, col(2)>>, <<>>, 0, 0, TRUE, FALSE, FALSE), <<1, 2>>),
       Sub(Mk(2, LB2, "p", FALSE, <<aCp, col(2)>>, <<>>, 0, 0, TRUE, FALSE, FALSE), <<2, 1>>) }
+(* delivery of the results: the statement goes through the connection's execute() shortcut (or a cursor the thread
+   made), the thread is descheduled after execute() has returned and between its fetches *)
+JobsDeliver ==
+    { Dl(Mk(1, LA2, "e", FALSE, <<col(2)>>, <<>>, 0, 0, TRUE, FALSE, FALSE), "conn", <<0>>),               \* conn.execute(..); fetchall
+      Dl(Mk(1, LA2, "p", FALSE, <<col(2), col(3)>>, <<aHi>>, 0, 121, FALSE, FALSE, FALSE), "conn", <<1, 0>>), \* same connection: fetchone, fetchall
+      Dl(Mk(1, LA2, "p", FALSE, <<aRp, col(1)>>, <<>>, 0, 0, TRUE, FALSE, FALSE), "cursor", <<2, 0>>),     \* a cursor of its own on that connection
+      Dl(Mk(1, LA2, "e", FALSE, <<col(3), col(2)>>, <<aLo>>, 12, 0, FALSE, FALSE, FALSE), "conn", <<>>),   \* results taken at once
+      Dl(Mk(2, LB2, "p", TRUE, <<>>, <<>>, 0, 0, TRUE, FALSE, FALSE), "conn", <<1, 1, 0>>),                \* another connection
+      Dl(Mk(2, LB2, "e", FALSE, <<col(2)>>, <<>>, 0, 0, TRUE, FALSE, FALSE), "conn", <<1>>) }             \* only the first row is asked for
+JobsResults ==
+    { Dl(Mk(1, LA2, "e", FALSE, <<col(2)>>, <<>>, 0, 0, TRUE, FALSE, FALSE), "conn", <<0>>),
+      Dl(Mk(1, LA2, "p", FALSE, <<col(2)>>, <<>>, 0, 0, TRUE, FALSE, FALSE), "conn", <<0>>) }
 Jobs(name) ==
     CASE name = "3rows" -> Jobs3 [] name = "2rows" -> Jobs2
+      [] name = "deliver" -> JobsDeliver [] name = "results" -> JobsResults
       [] name = "expr" -> JobsExpr [] name = "operands" -> JobsOperands [] name = "subcols" -> JobsSubcols
       [] name = "compiler" -> JobsCompiler [] name = "memo" -> JobsMemo
       [] name = "parser" -> JobsParser [] name = "scan" -> JobsScan
